@@ -134,6 +134,15 @@ func solve(scratch string, idx int, body string, seed, timeoutS int, crossCheck 
 		if allTO {
 			res.status = "timeout"
 		}
+		allErr := true
+		for _, s := range res.all {
+			if s != "error" {
+				allErr = false
+			}
+		}
+		if allErr {
+			res.status = "error" // every solver rejected the query: a generator bug, never a proof
+		}
 		res.timeS = time.Since(start).Seconds()
 		var sb strings.Builder
 		for k, v := range res.all {
